@@ -91,6 +91,12 @@ func (g *vC12Gate) Delete(ctx context.Context, k string) error {
 	return g.DataStore.Delete(ctx, k)
 }
 
+// the TTL refresh since fix b081bb5: compare-and-swap against the session document that was read
+func (g *vC12Gate) WriteCas(ctx context.Context, k string, exp uint32, cas uint64, v any, opt sgbucket.WriteOptions) (uint64, error) {
+	g.wait("PSet")
+	return g.DataStore.WriteCas(ctx, k, exp, cas, v, opt)
+}
+
 func (g *vC12Gate) Set(ctx context.Context, k string, exp uint32, opts *sgbucket.UpsertOptions, v any) error {
 	g.wait("PSet")
 	return g.DataStore.Set(ctx, k, exp, opts, v)
@@ -514,8 +520,7 @@ func TestVerif_C12_AuthSession(t *testing.T) {
 // pstep performs one storage step of a presenter and logs it under the name of the operation really performed
 func (w *vC12World) pstep(p *vC12Presenter, st vC12Step, emit func(string, vC12Step, vObj, vObj), noRes vObj) {
 	st.S, st.Kind, st.Pr = p.s, p.kind, p.id
-	if p.pc == "done" { // finished before the step the behaviour expected: nothing is performed, the trace shows it
-		emit("PNone", st, noRes, vObj{"expected": st.A})
+	if p.pc == "done" { // finished before the step the behaviour expected (its last logged line says "done"): nothing to perform
 		return
 	}
 	op, fin := w.advance(p)
